@@ -40,4 +40,20 @@ Proof.
     + rewrite Z.gtb_ltb in E1. apply Z.ltb_ge in E1. lia.
     + intros x Hx. apply tx_put_all_found_gen; auto.
 Qed.
+
+(* the block a node builds: when no header exists yet, the one MakeHeader creates carries the context's index, previous
+   hash, timestamp, nonce and transaction hashes - the values the proposal was built from *)
+Theorem makeheader_spec s0 :
+  header s0 = None ->
+  hx s0 (MakeHeader cfg) (fun r s tr => forall b, r = Some b ->
+    b_index b = BlockIndex s0 /\ b_prev b = PrevHash s0 /\ b_ts b = Timestamp s0 /\ b_nonce b = Nonce s0 /\ b_hashes b = TransactionHashes s0 /\
+    header s = Some b /\ Timestamp s = Timestamp s0 /\ Nonce s = Nonce s0 /\ TransactionHashes s = TransactionHashes s0).
+Proof.
+  intros Hh. unfold MakeHeader, RequestSentOrReceived. apply x_get. rewrite Hh. xs.
+  all: try (intros b Hb; discriminate Hb).
+  intros b [= <-]. cbn. repeat split; reflexivity.
+Qed.
+
+Lemma ts_strict last inc ts : 0 <= last -> 0 < inc -> last + inc < 18446744073709551616 -> u64 (last + inc) <= ts -> last < ts.
+Proof. intros H1 H2 H3 H4. unfold u64 in H4. rewrite Z.mod_small in H4; lia. Qed.
 End P15.
